@@ -22,13 +22,13 @@ REF_PROPS, REF_KW, REF_SVGPROPS = set(_S["cssProperties"]), set(_S["cssKeywords"
 
 PROPS = sorted(REF_PROPS) + ["background", "background-image", "border-left", "margin", "margin-top", "padding-x", "border", "Border-Top",
                              "fill", "stroke-width", "stroke", "behavior", "position", "-moz-binding", "list-style-image", "content", "x-y-z",
-                             "a-b-c", "filter", "COLOR", "Width", "font family", "top", "z-index", "_width", "-", "w1dth"]
+                             "a-b-c", "filter", "border-image", "background-attachment", "COLOR", "Width", "font family", "top", "z-index", "_width", "-", "w1dth"]
 VALUES = ["red", "1px", "10px solid red", "#fff", "#FFF", "#12g", "rgb(1,2,3)", "rgb(10%,20%,30%)", "1.5em", "12.25px", "100%", "auto",
           "url(http://x/y)", "url( 'a' )", "url(1 1)", "URL(http://x)", "u\\rl(x)", "expression(alert(1))", "expression(1)", "calc(1)",
           "'Times New Roman'", '"Arial"', "a-b", "a-b-c", "1 , 2", "(1,2)", "( 1 )", "()", "(a)", "rgb(1,2", "12345px", "1..2em", ".5em",
           "1e3", "-1px", "+1px", "1px!important", "red ! important", "/*x*/red", "r\\65 d", "@import", "{}", "<b>", "&quot;", "a:b",
           "", " ", "x;y", "inherit", "transparent", "medium", "thick dotted blue", "0", "00.00)", "1,", "1)", "rgb(1,)", "rgb(,1)", "rgb(1%,,)",
-          "url(x)url(y)", "u url(x) l", "uurl(http://evil.example/c.cur)rl(7)", "ururl(a)l(1,2)", "u url(x)rl(3)", "exprexpression(1)ession(2)", "urlurl(x)(7)", "ur\nl(x)", "url\t(\tx\t)", "\x1cred", "red\x1f", "1\x0bpx"]
+          "'expression(alert(1))'", "'a\\62 c'", '"x{}"', "'/* x */ serif'", "'@import'", "'url(//evil.example/a b)'", "'Lucida-Console'", '"a.b"', "1px expression", "behavior 0", "solid moz-binding", "url(x)url(y)", "u url(x) l", "uurl(http://evil.example/c.cur)rl(7)", "ururl(a)l(1,2)", "u url(x)rl(3)", "exprexpression(1)ession(2)", "urlurl(x)(7)", "ur\nl(x)", "url\t(\tx\t)", "\x1cred", "red\x1f", "1\x0bpx"]
 SEPS = [";", "; ", " ;", ";;", "", ";\n", " ; \t"]
 
 
@@ -105,6 +105,7 @@ def correspondence(ctx):
 # ------------------------------------------------------------------ search
 SHORTHAND = ("background", "border", "margin", "padding")
 _COLOUR = re.compile(r"^#[0-9a-fA-F]{1,8}$")
+_SHORT_TOKEN = re.compile(r"#[0-9a-fA-F]+|rgb\([\d%,.\s]*\)?|[+-]?[\d.]*(cm|em|ex|in|mm|pc|pt|px|%|,|\))?")
 
 
 def check_style_value(out, svg, where, witness):
@@ -135,6 +136,21 @@ def check_style_value(out, svg, where, witness):
         if svg and pl in REF_SVGPROPS:
             continue
         bad("property", "keeps property %r which is on no allow-list (svg context: %s)" % (prop, svg))
+    # "... or is a background-/border-/margin-/padding- shorthand whose EVERY value token is an allow-listed keyword, colour, or length": judged token by
+    # token on the source text of each declaration (the tokenizer's values are not source text: a hash token drops its '#'), with a restatement that is
+    # deliberately a little wider than sanitizer.py's own pattern (upper-case hex digits, any number of digits), so that it never asks for more than the
+    # property does
+    for piece in out.split(";"):
+        if ":" not in piece:
+            continue
+        prop, val = piece.split(":", 1)
+        pl = prop.strip().lower()
+        if pl in REF_PROPS or pl.split("-")[0] not in SHORTHAND or (svg and pl in REF_SVGPROPS):
+            continue
+        for tok in val.split():
+            if tok not in REF_KW and not _SHORT_TOKEN.fullmatch(tok):
+                bad("shorthand-token", "keeps shorthand %r whose value token %r is neither an allow-listed keyword nor a colour / length" % (pl, tok))
+                break
     if info["garbage"]:
         bad("shape", "is not a list of 'property: value;' declarations: %r" % (info["garbage"],))
     return fs
